@@ -72,3 +72,84 @@ func vh_C16_L1_sna16() {
 	vobserve("gt", vb2u(gt))
 	vcover("end")
 }
+
+// C16.L2: the in-flight queue is addressed by TSN offset from its front: get(t) hits
+// exactly the chunks pushed, at every front TSN (including a queue that straddles 2^32).
+func vh_C16_L2_inflight_lookup() {
+	q := newPayloadQueue()
+	front := nondetU32()
+	n := 1 + vPick(4)
+	var cs [4]*chunkPayloadData
+	for i := 0; i < n; i++ {
+		cs[i] = &chunkPayloadData{tsn: front + uint32(i), userData: make([]byte, 1+i)}
+		q.pushNoCheck(cs[i])
+	}
+	t := nondetU32()
+	c, ok := q.get(t)
+	off := t - front
+	vassert(ok == (off < uint32(n)), "get(t) hits exactly the TSNs in [front, front+len)")
+	if ok {
+		vassert(c == cs[off] && c.tsn == t, "and returns the chunk with that TSN")
+	}
+	// pop only takes the front
+	p, popped := q.pop(t)
+	vassert(popped == (t == front), "pop(t) succeeds exactly for the front TSN")
+	if popped {
+		vassert(p == cs[0] && q.size() == n-1 && q.getNumBytes() == (n*(n+1))/2-1, "and removes exactly the front chunk")
+	} else {
+		vassert(q.size() == n, "a failed pop changes nothing")
+	}
+	vobserve("ok", vb2u(ok))
+	vcover("end")
+}
+
+// C16.L3: ordering of chunks and chunk sets by TSN / SSN / FSN / MID uses serial
+// arithmetic: three elements at a symbolic base (any position relative to the wrap) in
+// every input order come out in serial order.
+func vh_C16_L3_sort_orders() {
+	base32 := nondetU32()
+	base16 := nondetU16()
+	perm := vPermute(3)
+	switch vPick(4) {
+	case 0:
+		a := make([]*chunkPayloadData, 3)
+		for i, k := range perm {
+			a[i] = &chunkPayloadData{tsn: base32 + uint32(k)}
+		}
+		sortChunksByTSN(a)
+		vassert(a[0].tsn == base32 && a[1].tsn == base32+1 && a[2].tsn == base32+2, "chunks sorted by TSN in serial order")
+	case 1:
+		a := make([]*chunkSet, 3)
+		for i, k := range perm {
+			a[i] = &chunkSet{ssn: base16 + uint16(k)}
+		}
+		sortChunksBySSN(a)
+		vassert(a[0].ssn == base16 && a[1].ssn == base16+1 && a[2].ssn == base16+2, "chunk sets sorted by SSN in serial order")
+	case 2:
+		a := make([]*chunkPayloadData, 3)
+		for i, k := range perm {
+			a[i] = &chunkPayloadData{fragmentSequenceNumber: base32 + uint32(k)}
+		}
+		sortChunksByFSN(a)
+		vassert(a[0].fragmentSequenceNumber == base32 && a[2].fragmentSequenceNumber == base32+2, "fragments sorted by FSN in serial order")
+	case 3:
+		var a []*chunkSetMID
+		for _, k := range perm {
+			a = insertChunkSetByMID(a, &chunkSetMID{mid: base32 + uint32(k)})
+		}
+		vassert(len(a) == 3 && a[0].mid == base32 && a[1].mid == base32+1 && a[2].mid == base32+2, "chunk sets inserted by MID in serial order")
+	}
+	vcover("end")
+}
+
+// C16.L4: the wrap-sensitive handler obligations of other properties, all of which run
+// with fully symbolic sequence-number bases, are part of this property's check:
+// receiver cursor advance at the SSN/MID wrap, deferred reset against a symbolic last
+// TSN, the ack decision for a symbolic TSN, window capacity for every buffer size.
+func vh_C16_L4_receiver_skip_at_wrap()  { vh_C07_L3_receiver_skip_exact() }
+func vh_C16_L4_deferred_reset()         { vh_C14_L2_deferred_reset() }
+func vh_C16_L4_ack_policy()             { vh_C19_L5_ack_policy() }
+func vh_C16_L4_window_capacity()        { vh_C01_L4_tracking_window_capacity() }
+func vh_C16_L4_ordered_reassembly()     { vh_C01_L5_ordered_reassembly() }
+func vh_C16_L4_cwnd_laws_any_tsn()      { vh_C10_L3_cwnd_laws() }
+func vh_C16_L4_transfer_across_wrap()   { vh_C02_L1_reliable_transfer_one_fault() }
